@@ -29,3 +29,6 @@ def run(ctx, rep):
     more4.rule_relax_bound(mod, rep)
     from ..rules import more4
     more4.rule_marker_kind(mod, rep)
+    from ..rules import more4
+    more4.rule_panel_column(mod, rep)
+    more4.rule_segment_scan(mod, rep)
